@@ -275,6 +275,18 @@ Example C14_ex_takeover_run :
 Proof. vm_compute. repeat split; reflexivity. Qed.
 
 (* ------------------------------------------------------------------ *)
+(** ** 6'. The function evaluated by the correspondence check *)
+
+(** The check replays schedules with [sys_turn_at_x] (ElectionRun.v), which can
+    additionally let a competitor's write land between two operations of a turn
+    (operation-granularity interleaving on the real code).  Without such a write
+    it is the turn function [sys_turn_at] the theorems above talk about. *)
+Theorem C14_checked_function_is_turn : forall thr i tick fl y,
+  sys_turn_at_x thr i tick fl None None y = sys_turn_at thr i tick fl y.
+Proof. exact sys_turn_at_x_none. Qed.
+Print Assumptions C14_checked_function_is_turn.
+
+(* ------------------------------------------------------------------ *)
 (** ** 7. The model's CAS is the DB model's applyKVUpdate *)
 
 From Drummer.Model Require DB.
